@@ -20,7 +20,7 @@ LEVEL_NOTE = ("Trusted: the stack model (properly nested uses only, as the quant
               "inside __exit__ itself.")
 TECHNIQUE = "history enumeration with fault injection in with-bodies, checked online against a stack model of the gate"
 RULE = ("history = tree of steps: call_enable | call_disable | with_enable(body, raises?) | "
-        "with_disable(body, raises?) | probe(k) with k in {list, tensor, closure, modifier}; depth <= 4, "
+        "with_disable(body, raises?) | probe(k) with k in 11 probe programs (one per site that consults the gate: lists as literal / checked literal / comprehension / annotation, function tensors in checking / synthesis / statement position, capturing closures (also nested twice), modifier blocks); depth <= 4, "
         "<= 8 steps; raising bodies raise after their steps (plain exception) or through a failing "
         "probe check. distinct = distinct history trees; non-trivial = contains a with-block")
 FLOORS = {"steps_checked": 200, "probes_checked": 100, "exceptional_exits": 10}
@@ -34,6 +34,26 @@ PROBES = {
     "closure": ("from guppylang import guppy\n\n@guppy\ndef main(x: int) -> int:\n"
                 "    def inner(y: int) -> int:\n        return x + y\n    return inner(1)\n",
                 "Capturing closures"),
+    # one probe per site that consults the gate: list literal in checking position, list
+    # comprehension, list type annotation, function tensor in synthesis position
+    "list_checked": ("from guppylang import guppy\n\n@guppy\ndef main() -> int:\n    xs: list[int] = [1, 2, 3]\n"
+                     "    return xs[0]\n", "Lists"),
+    "list_comp": ("from guppylang import guppy\n\n@guppy\ndef main() -> int:\n"
+                  "    xs = [i + 1 for i in range(3)]\n    return xs[0]\n", "Lists"),
+    "list_annotation": ("from guppylang import guppy\n\n@guppy\ndef main(xs: list[int]) -> int:\n"
+                        "    return xs[0]\n", "Lists"),
+    "tensor_synth": ("from guppylang import guppy\n\n"
+                     "@guppy\ndef f(x: int) -> int:\n    return x\n\n@guppy\ndef g(x: bool) -> bool:\n    return x\n\n"
+                     "@guppy\ndef main() -> int:\n    a, b = (f, g)(1, True)\n    return a\n", "Function tensors"),
+    "tensor_stmt": ("from guppylang import guppy\n\n"
+                    "@guppy\ndef f(x: int) -> int:\n    return x\n\n@guppy\ndef g(x: bool) -> bool:\n    return x\n\n"
+                    "@guppy\ndef main() -> None:\n    (f, g)(1, True)\n", "Function tensors"),
+    "closure_nested2": ("from guppylang import guppy\n\n@guppy\ndef main(x: int) -> int:\n"
+                        "    def outer(y: int) -> int:\n        def inner(z: int) -> int:\n            return y + z\n"
+                        "        return inner(1)\n    return outer(x)\n", "Capturing closures"),
+    "modifier_control": ("from guppylang import guppy\nfrom guppylang.std.quantum import qubit, h\n"
+                         "control = object()\n\n@guppy\ndef main(q: qubit, c: qubit) -> None:\n"
+                         "    with control(c):\n        h(q)\n", "Modifiers"),
     "modifier": ("from guppylang import guppy\nfrom guppylang.std.quantum import qubit, h\n"
                  "dagger = object()\n\n@guppy\ndef main(q: qubit) -> None:\n    with dagger:\n        h(q)\n",
                  "Modifiers"),
